@@ -233,6 +233,16 @@ func runC17(c *Ctx) {
 					break
 				}
 			}
+			// keys that climb out of the bucket create no bucket
+			c.R.Evaluations++
+			do(impl.Req{Method: "PUT", Path: p})
+			for _, k := range []string{"../ghost-bucket/key", "../../ghost-two/key", "./../ghost-three/key", "..%2Fghost-four%2Fkey"} {
+				do(impl.Req{Method: "PUT", Path: p + "/" + k, Body: bytes.NewReader([]byte("g"))})
+			}
+			if got := listed(); got != name {
+				fail("lifecycle:bucket-not-created", "after uploads of keys beginning with ../ listed: "+got, "listed: "+name+" (no other bucket was created)")
+			}
+			do(impl.Req{Method: "DELETE", Path: p, Header: map[string]string{"x-minio-force-delete": "true"}})
 			// an upload completed after its bucket was deleted creates no bucket
 			c.R.Evaluations++
 			do(impl.Req{Method: "PUT", Path: p})
